@@ -6,6 +6,7 @@ pub mod c03;
 pub mod c04;
 pub mod c09;
 pub mod c10;
+pub mod c12;
 pub mod c16;
 pub mod c17;
 pub mod common;
@@ -21,6 +22,7 @@ pub fn run(what: &str, tier: &str, _rest: &[String]) -> i32 {
         "C04" => c04::run(tier),
         "C09" => c09::run(tier),
         "C10" => c10::run(tier),
+        "C12" => c12::run(tier),
         "C16" => c16::run(tier),
         "C17" => c17::run(tier),
         _ => {
